@@ -3,6 +3,7 @@
 package keeper
 
 import (
+	sdk "github.com/cosmos/cosmos-sdk/types"
 	"time"
 
 	"cosmossdk.io/math"
@@ -32,3 +33,4 @@ func verifConfig(key string, val int)              { panic("verif intrinsic") }
 func verifIdealHash()                              { panic("verif intrinsic") }
 func verifNote(label string, v any)                { panic("verif intrinsic") }
 func verifSymQty64(name string) int64               { panic("verif intrinsic") }
+func verifFreshChain(ctx sdk.Context) sdk.Context { panic("verif intrinsic") }
